@@ -346,7 +346,7 @@ Lemma huber_sep gamma n : forall (w x : Rvec) s, 0 <= gamma -> 0 < s -> length w
 Proof.
   vind2 n. - constructor.
   - inv_allpos. unfold prox_huber in *. cbn [repeat map]. constructor; try assumption.
-    + numR. apply huber_opt; assumption.
+    + numR. apply huber_opt'; assumption.
     + apply IHn; auto; lia.
 Qed.
 Theorem huber_leaf_prox gamma n w s x : 0 <= gamma -> 0 < s -> length w = n -> length x = n -> allpos w ->
